@@ -5,21 +5,55 @@ from vlib.gens import *
 GROUP = "int"
 LEAN_PROPS = "Dashu.Props.C01"
 LEAN_AUDIT = "Dashu.Audit.C01"
-REFINED = ["add_one_in_place", "sub_one_in_place", "add_same_len_in_place", "sub_same_len_in_place",
-           "sub_same_len_in_place_swap", "add_in_place", "sub_in_place", "sub_in_place_with_sign",
-           "add_dword/add_large_dword/add_large", "sub_dword/sub_large_dword/sub_large/sub_large_ref_val",
-           "repr_signed::sub_*", "impl_ibig_add", "impl_ibig_sub", "impl_ibig_mul (sign rule)",
-           "mul_word_in_place_with_carry", "mul_dword", "mul_large_dword"]
-FRONTIER = ["mul::multiply (simple/karatsuba/toom_3) on >=3-word operands", "sqr::sqr", "pow"]
-RULE = ("operand sizes drawn from the size classes {0,1,2,3,4,5, thr-1,thr,thr+1 for thr in 24,192, ...} x "
+REFINED = ["add_one_in_place", "sub_one_in_place", "add_word_in_place", "sub_word_in_place",
+           "add_same_len_in_place", "sub_same_len_in_place", "sub_same_len_in_place_swap",
+           "add_in_place", "sub_in_place (borrow <=> lhs < rhs)", "add_dword_in_place", "sub_dword_in_place",
+           "sub_in_place_with_sign (value, sign, zeroed top words)",
+           "Repr::from_buffer", "add_dword/add_large_dword/add_large",
+           "sub_dword/sub_large_dword/sub_large/sub_large_ref_val (NegativeUBig iff a < b)",
+           "repr_signed::sub_dword/sub_large/SubSigned (all forms)", "Repr::with_sign/neg, into_sign_repr",
+           "impl_ibig_add", "impl_ibig_sub", "impl_ibig_mul (sign rule)",
+           "mul_word_in_place_with_carry", "shl_in_place (as used by mul_large_dword)", "is_power_of_two",
+           "mul_dword_in_place (incl. leftover word)", "mul_dword/mul_dword_spilled", "mul_large_dword",
+           "TypedReprRef::sqr small arm / square_dword_spilled",
+           "add_mul_word_same_len_in_place", "add_mul_word_in_place",
+           "sub_mul_word_same_len_in_place (carry_plus_max: no underflow, fits DoubleWord)",
+           "simple::add_mul_chunk / sub_mul_chunk / add_signed_mul_chunk",
+           "add_signed_word_in_place / add_signed_same_len_in_place / add_signed_in_place",
+           "helpers::add_signed_mul_split_into_chunks (signed carry at c[n] across chunks, remainder in either order)",
+           "karatsuba::add_signed_mul_same_len (three products, carry_c0/carry_c1 placement) and karatsuba::add_signed_mul",
+           "mul::add_signed_mul_same_len / mul::add_signed_mul dispatch (thresholds regenerated from source), "
+           "simple::add_signed_mul, mul::multiply (asserted-zero carry is zero), mul_large for unequal operands",
+           "math::max_exp_in_word (k >= 1, base^k fits a word)", "pow binary loop (pow_word_base/pow_dword_base/pow_large_base)",
+           "pow_word_base shortcuts (0,1,2,2^k) and word lifting", "TypedReprRef::pow shortcuts 0/1/2",
+           "UBig::pow factor-2 removal", "IBig::pow sign rule"]
+FRONTIER = ["toom_3::add_signed_mul_same_len (operands with min(len) > THRESHOLD_KARATSUBA=192): defined as its "
+            "contract 'c += sign*a*b mod B^|c|, carry = quotient' inside the mirrored dispatcher",
+            "sqr::sqr (square_large, incl. the equal-operands shortcut of mul_large): defined as the exact square",
+            "inside pow: buffers of pow_word_base/pow_dword_base carried as values (res*wbase = mul_word_in_place proved "
+            "separately; res*res = sqr::sqr frontier); repr.shr(shift)/.shl(exp*shift)/trailing_zeros taken at spec (C09)",
+            "Buffer capacity / allocation panics (C17)"]
+RULE = ("operand sizes drawn from the size classes {0,1,2,3,4,5, thr-1,thr,thr+1 for thr in 24,32,192, 385, 400, 1025, 2049...} x "
         "bit patterns {10..0, 1..1, 2^k, 2^k+-1, sparse, low words zero, random} x signs x "
-        "{add,sub,mul,sqr,cubic,pow} x operand kinds (UBig, IBig, mixed); every case runs all ownership/assign "
-        "call forms in the harness. Non-trivial := at least one operand has >= 3 words, or the result crosses "
-        "the inline/heap boundary relative to an operand; distinct := distinct (op,args) lines.")
-EXPLANATION = ("Theorems (all W, all lengths): word-level carry/borrow chains, dispatch (inline/heap) and IBig sign "
-               "tables of + and - are refined to Int arithmetic incl. the UBig underflow panic; multiplication by a "
-               "word/double word is refined; multi-word x multi-word products, squaring and pow are at the model "
-               "frontier (defined as their spec) and tied to the code by the correspondence run only.")
+        "{add,sub,mul,sqr,cubic,pow} x operand kinds (UBig, IBig, mixed); plus a deterministic block of carry/borrow chains "
+        "that grow/shrink the word count across the 1/2/3/4-word boundaries for every sign combination and operand order; "
+        "a block of products at (24|25) x (24|25|100|400), (192|193) x (192|193), 1024/1025 x 3/24/25 words (all-ones, random, "
+        "patterned) with the equal-operand squaring shortcut; pow: bases {0,1,2,2^k,3,10,B-1,B,B+1,2-word,3-word, bases "
+        "with a factor 2^s} x exponents {0..5, around wexp and 2*wexp of max_exp_in_word, powers of two +-1, up to 200 "
+        "(thorough: 1000)} bounded by result size (quick 2e5 bits, thorough 3e6 bits); every case runs all ownership/"
+        "assign call forms in the harness. Non-trivial := at least one operand has >= 3 words; distinct := distinct "
+        "(op,args) lines.")
+EXPLANATION = ("Theorems (all W >= 1, all lengths, all signs): + and - are refined from the operator sign tables through the "
+               "inline/heap dispatch (every ownership form) down to the word-level carry/borrow loops, incl. the UBig "
+               "underflow panic (error iff a < b) and canonical results without negative zero; x by a word / double word "
+               "(shift path for powers of two included) and schoolbook x (add_mul_word / sub_mul_word with the "
+               "carry_plus_max trick, add_mul_chunk / sub_mul_chunk) are refined to exact products; pow = base^exp for "
+               "UBig/IBig with the sign rule, over the mirrored control flow of pow.rs. mul::add_signed_mul is refined "
+               "for all operand lengths through chunk splitting and the Karatsuba recursion (slice-window updates with "
+               "signed carries; the algebraic identity is one linear_combination); the Toom-3 same-length kernel and "
+               "the squaring kernels (sqr::sqr, incl. the equal-operands shortcut of mul_large) are at the model frontier "
+               "(defined as their spec) and tied to the code by the correspondence run only. One finding: `exp * shift` in UBig::pow/IBig::pow overflows usize for "
+               "base = 2^s, exp*s >= 2^64 (wrong value 1 in release builds).")
 ASSUMPTIONS = ["arch add_with_carry/sub_with_borrow and overflowing_add behave as their documented contracts"]
 
 THRESH = [24, 32, 192]
@@ -174,15 +208,21 @@ def generate(rng, tier):
     yield from mul_threshold_cases(rng, tier)
     yield from pow_cases(rng, tier)
 
-LEVEL_TEXT = ("Machine-checked Lean 4 theorems, for every word size and operand length, that the word-level carry/borrow "
-              "loops, the inline/heap dispatch and from_buffer normalisation compute exact sums/differences with canonical "
-              "results; the hand-written model is tied to /repo on every run by differential execution of model and real "
-              "code over structured operands around every size-class and algorithm threshold, all call forms. Products of two "
-              "multi-word operands (schoolbook/Karatsuba/Toom-3), sqr and pow are at the model frontier: decided by the "
-              "correspondence against exact Nat arithmetic, not yet by a refinement theorem.")
+LEVEL_TEXT = ("Machine-checked Lean 4 theorems, for every word size W >= 1, every operand length and sign: the word-level "
+              "carry/borrow loops, the inline/heap dispatch of every ownership form, from_buffer normalisation and the IBig "
+              "sign tables compute exact sums/differences (UBig underflow = documented panic iff a < b) with canonical "
+              "results; multiplication by one or two words, the schoolbook kernels, chunk splitting and the Karatsuba "
+              "recursion (thresholds regenerated from source; W >= 3 for the signed-carry words) compute exact products "
+              "with the asserted-zero carry of mul::multiply proved zero; the mirrored control flow of pow.rs computes "
+              "base^exp with the IBig sign rule. The hand-written model is tied to /repo on every run by differential "
+              "execution of model and real code over structured operands around every size-class and algorithm threshold, "
+              "all call forms. The Toom-3 same-length kernel (> 192 words) and the squaring kernels are at the "
+              "model frontier: decided by the correspondence against exact Nat arithmetic, not yet by a refinement theorem.")
 LEVEL_NOTE = ("Trusted: Lean kernel; axioms propext/Classical.choice/Quot.sound; the correspondence harness and generators "
-              "(sampling) for the tie model<->code; arch intrinsics (add_with_carry etc.) at their documented contracts; "
-              "frontier kernels listed in evidence are modelled as their specification, not verified.")
+              "(sampling) for the tie model<->code; arch intrinsics (add_with_carry, sub_with_borrow, overflowing_add, "
+              "split_dword/extend_word) at their documented contracts; frontier kernels listed in evidence are modelled as "
+              "their specification, not verified; usize exponent arithmetic only through the powShiftOverflows guard; "
+              "allocation/capacity is C17.")
 TECHNIQUE = "Lean 4 refinement proofs (induction over word lists, all W) + differential correspondence model vs real code"
 
 # Tie A: IBig sign tables regenerated from integer/src/{add_ops,mul_ops}.rs on every run
